@@ -591,7 +591,11 @@ func (Engine) Exec(sci interface{}, opt harness.ExecOpts) *harness.Outcome {
 	}
 	if multi {
 		var sb strings.Builder
-		for _, st := range sc.Stmts[8:] {
+		rest := sc.Stmts
+		if len(rest) > 8 {
+			rest = rest[8:]
+		}
+		for _, st := range rest {
 			sb.WriteString(stmtText(st))
 			sb.WriteString("\n--\n")
 		}
